@@ -191,8 +191,10 @@ prop("C08", "broker-side subscriptions converge to the app's calls", "fault_enum
      "calls; (2) on the first successful connection, and on any connection whose CONNACK said session present while "
      "AlwaysResubscribe is off, every SUBSCRIBE belongs to a request whose SUBACK had not yet been received. Non-trivial = a "
      "reconnect after an acknowledged subscribe together with a repeated filter, an unsubscribe or a request pending at the "
-     "fault; distinct = FNV-64 of the case JSON.",
-     [dict(tests="^TestVerifC08_Subscriptions$", checks_quick=3000, checks_thorough=45000, shards=16)],
+     "fault; distinct = FNV-64 of the case JSON. A second generator (Timeouts) adds ResponseTimeout 5..20 ms and silently "
+     "dropped SUBACK / UNSUBACK / PUBACK / PUBREC so that requests time out on a live connection (also inside a retry pass).",
+     [dict(tests="^TestVerifC08_Timeouts$", checks_quick=1000, checks_thorough=12000, shards=8),
+      dict(tests="^TestVerifC08_Subscriptions$", checks_quick=3000, checks_thorough=45000, shards=16)],
      assumptions=["granted QoS equals requested QoS at the broker model", "quiescence is decided with the verif-tagged observation hook after the reconnect loop pushed its tasks"])
 
 prop("C17", "the registered handler follows the connection", "fault_enumeration",
